@@ -148,8 +148,8 @@ def worker_exh(args):
 
 def run(ctx):
     quick = ctx.quick
-    n_t = 40000 if quick else 1500000
-    n_c = 40000 if quick else 1500000
+    n_t = 160000 if quick else 1500000
+    n_c = 160000 if quick else 1500000
     jobs = [("tiling", "%s/%d" % (ctx.seed, i), n_t // NCPU) for i in range(NCPU)] + [("conform", "%s/%d" % (ctx.seed, i), n_c // NCPU) for i in range(NCPU)]
     for part in pmap(worker, jobs): ctx.merge(part)
     maxlen = 4 if quick else 5
